@@ -2,7 +2,8 @@ package main
 
 // C12, group "lru": bsdiff/lrufile against a plain in-memory reader, for every cache geometry
 // (chunk size 1.., entries 1..) and arbitrary sequences of seeks and reads.  The underlying
-// ReadSeeker records every Read it serves (= chunk loads), which the model must reproduce.
+// ReadSeeker records every chunk load it serves (a Seek and the Reads that follow it), which the
+// model must reproduce.
 
 import (
 	"bytes"
@@ -14,16 +15,23 @@ import (
 	"verif/harness/lib"
 )
 
+// A load is a Seek followed by the Reads that continue from there: how many Read calls the cache
+// needs to fill one chunk (one, or several as io.ReadFull issues when a Read comes back short or
+// when it probes for the end of the file) is not an observable of the property.
 type c12RecReader struct {
-	r     *bytes.Reader
-	pos   int64
-	loads []int64 // offset of every Read served
-	sizes []int
+	r      *bytes.Reader
+	pos    int64
+	loads  []int64 // offset of every load served
+	sizes  []int   // bytes asked for by the first Read of the load
+	inLoad bool    // a Read has been served since the last Seek
 }
 
 func (rr *c12RecReader) Read(p []byte) (int, error) {
-	rr.loads = append(rr.loads, rr.pos)
-	rr.sizes = append(rr.sizes, len(p))
+	if !rr.inLoad {
+		rr.loads = append(rr.loads, rr.pos)
+		rr.sizes = append(rr.sizes, len(p))
+		rr.inLoad = true
+	}
 	n, err := rr.r.Read(p)
 	rr.pos += int64(n)
 	return n, err
@@ -33,6 +41,7 @@ func (rr *c12RecReader) Seek(off int64, whence int) (int64, error) {
 	p, err := rr.r.Seek(off, whence)
 	if err == nil {
 		rr.pos = p
+		rr.inLoad = false
 	}
 	return p, err
 }
